@@ -21,22 +21,22 @@ LEVEL_TEXT = ("Coq proofs about the executable model meek_model (textbook rules 
               "pairs, repeat while changed): UNBOUNDED — meek_only_orients (nodes, skeleton kept, directed edges kept, every new "
               "directed edge was an undirected edge), meek_terminates (fuel |U|+1 reaches a graph on which no rule fires, any "
               "sweep order list), meek_sound (every orientation holds in every consistent DAG extension; simple PDAG). "
-              "BOUNDED — meek_complete_on_patterns_bounded_4: for every DAG on <=4 nodes the closure of its pattern equals the "
-              "essential graph computed by brute-force enumeration of the Markov equivalence class (vm_compute); "
-              "all_dags_covers_every_dag + meek_complete_on_patterns_bounded_4_all lift it to EVERY well-formed DAG on 0..n-1 "
-              "through its canonical edge listing (same nodes, set-equal directed edges, member of the enumeration). "
+              "BOUNDED — meek_complete_on_patterns_bounded_5: for every DAG on <=5 nodes (1+1+3+25+543+29281) the closure of its "
+              "pattern equals the essential graph computed by brute-force enumeration of the Markov equivalence class "
+              "(vm_compute; n=5 table-driven per skeleton with a proved-sound table, C08/Fast.v, 4 shards of ~1 min); "
+              "meek_complete_on_patterns_bounded_5_every_dag lifts it to EVERY well-formed DAG on 0..n-1 with its own edge "
+              "lists in any order (coverage of the enumeration + graph extensionality of pattern_of, meek_model and "
+              "essential_graph, C08/Cover.v, Ext.v, ExtEss.v). "
               "REFUTED for the rules as coded before the repair — meek_sound_code_refuted / _spec (rule 1 with ancestors orients an "
               "edge against a consistent extension in the sense of Spec.consistent_ext). "
               "BY CORRESPONDENCE — _apply_meek_rules of the repository equals the model on the generated inputs; "
               "completeness with background knowledge (model = maximally oriented graph) only observed by the extracted oracle.")
 LEVEL_NOTE = ("the tie is differential (extracted model vs. implementation on generated inputs); iteration order of graph.nodes / "
               "neighbors is modelled as V-order x V-order, the theorems hold for every order; n=5 completeness only through the "
-              "extracted oracle in the thorough tier; coverage of all_dags n is proved (every wf DAG on 0..n-1 has its canonical listing in it); NOT proved: that "
-              "pattern_of / meek_model / essential_graph return set-equal results on set-equal edge lists, so the lifted theorem "
-              "speaks about the canonical listing of the DAG; n=5 in the kernel not attempted (extrapolated from the 8 s of n=4 to over an hour of CPU, above the budget); "
-              "essential_graph / is_ext are boolean oracles (acyclicb proved sound for "
+              "extracted oracle in the thorough tier; measured kernel cost of n=5: naive check about 0.4 s per DAG (3 CPU-hours), table-driven with one v-structure "
+              "signature per DAG 4.3 CPU-min in total; essential_graph / is_ext are boolean oracles (acyclicb proved sound for "
               "Spec.acyclic, the rest of the reflection is not proved)")
-TECHNIQUE = "Coq proof (invariants, unbounded; completeness bounded n<=4 by vm_compute) + extracted-model correspondence"
+TECHNIQUE = "Coq proof (invariants, unbounded; completeness bounded n<=5 by vm_compute) + extracted-model correspondence"
 
 
 def pattern_of(g):
